@@ -278,13 +278,33 @@ struct GuardSpec {
     memo_one: bool,
     seeds: Vec<u64>,
     tag: String,
+    /// states whose stack is at most this deep get EVERY enabled opcode forced (first seed),
+    /// not only the opcodes on which implementation and model disagree; 0 = off
+    #[serde(default)]
+    all_edges_depth: usize,
+    /// 0 = empty containers, 1 = non-empty containers in the construction recipes
+    #[serde(default)]
+    variant: u8,
 }
 
 fn abs_kind(k: u8) -> u8 {
     match k { 0 => 0, 1..=4 => 1, 5 | 7 => 2, 6 => 3, 8 => 4, 9 => 5, 10 => 6, 11 => 7, 12 => 8, 13 | 15 => 9, 14 => 10, _ => 11 }
 }
 
-fn recipe(kind: u8, p: usize) -> Option<Vec<u8>> {
+/// canonical opcode recipe for one slot of kind `kind`; variant 1 builds NON-EMPTY containers
+fn recipe(kind: u8, p: usize, variant: u8) -> Option<Vec<u8>> {
+    if variant == 1 {
+        let tuple1: Vec<u8> = if p >= 2 { vec![0x4e, 0x85] } else { vec![0x28, 0x4e, 0x74] };
+        match kind {
+            4 => return Some(if p >= 1 { vec![0x5d, 0x4e, 0x61] } else { vec![0x28, 0x4e, 0x6c] }),
+            5 => return Some(tuple1),
+            6 => return Some(if p >= 1 { vec![0x7d, 0x4e, 0x4e, 0x73] } else { vec![0x28, 0x4e, 0x4e, 0x64] }),
+            7 => return if p >= 4 { Some(vec![0x8f, 0x28, 0x4e, 0x90]) } else { None },
+            8 => return if p >= 4 { Some(vec![0x28, 0x4e, 0x91]) } else { None },
+            10 => { let mut v = vec![0x63]; v.extend(tuple1); v.push(0x52); return Some(v); }
+            _ => {}
+        }
+    }
     let tuple: Vec<u8> = if p >= 1 { vec![0x29] } else { vec![0x28, 0x74] };
     Some(match kind {
         0 => vec![0x28],
@@ -333,7 +353,7 @@ pub fn guards(args: &[String]) -> i32 {
                 let mut plan: Vec<u8> = Vec::new();
                 if gs.memo_one { plan.extend([0x4e, 0x70, 0x30]); }
                 for k in &stk {
-                    match recipe(*k, gs.cfg.p) { Some(r) => plan.extend(r), None => { ok = false; break; } }
+                    match recipe(*k, gs.cfg.p, gs.variant) { Some(r) => plan.extend(r), None => { ok = false; break; } }
                 }
                 if ok {
                     for b in &plan {
@@ -347,18 +367,25 @@ pub fn guards(args: &[String]) -> i32 {
                 compared += 1;
                 let enabled = g.verif_valid_opcodes();
                 let m = enabled_mask(&enabled, &order);
-                if m[0] == masks[0] && m[1] == masks[1] && m[2] == masks[2] { continue; }
-                mismatched += 1;
+                let same = m[0] == masks[0] && m[1] == masks[1] && m[2] == masks[2];
+                let all_here = gs.all_edges_depth > 0 && stk.len() <= gs.all_edges_depth;
+                if same && !all_here { continue; }
                 let bit = |mm: &[u32], i: usize| (mm[i / 24] >> (i % 24)) & 1 == 1;
                 let impl_only: Vec<OpcodeKind> = (0..order.len()).filter(|i| bit(&m, *i) && !bit(&masks, *i)).map(|i| order[i]).collect();
-                let model_only: Vec<u8> = (0..order.len()).filter(|i| !bit(&m, *i) && bit(&masks, *i)).map(|i| order[i].as_u8()).collect();
-                if mism.len() < 50 {
-                    mism.push(json!({"stk": stk, "impl_only": impl_only.iter().map(|o| o.as_u8()).collect::<Vec<u8>>(), "model_only": model_only}));
+                if !same {
+                    mismatched += 1;
+                    let model_only: Vec<u8> = (0..order.len()).filter(|i| !bit(&m, *i) && bit(&masks, *i)).map(|i| order[i].as_u8()).collect();
+                    if mism.len() < 50 {
+                        mism.push(json!({"stk": stk, "impl_only": impl_only.iter().map(|o| o.as_u8()).collect::<Vec<u8>>(), "model_only": model_only}));
+                    }
                 }
                 let pathj: Vec<Value> = path.iter().map(|s| json!([s.op.as_u8(), s.bytes, s.seed.to_string()])).collect();
-                for op in impl_only {
+                let to_force: Vec<OpcodeKind> = if all_here { enabled.clone() } else { impl_only.clone() };
+                for op in to_force {
+                    let every_seed = impl_only.contains(&op);
                     for &seed in &gs.seeds {
-                        if edges >= 3000 { break; }
+                        if !every_seed && seed != gs.seeds[0] { break; }
+                        if every_seed && edges >= 3000 && !all_here { break; }
                         let mut g2 = rebuild(&gs.cfg, &path);
                         let res = std::panic::catch_unwind(std::panic::AssertUnwindSafe(|| force(&mut g2, op, seed)));
                         let (bytes, post, err) = match res {
@@ -370,7 +397,7 @@ pub fn guards(args: &[String]) -> i32 {
                         writeln!(out, "{}", json!({"cfg": cfgj, "path": pathj, "op": op.as_u8(), "seed": seed.to_string(), "bytes": bytes,
                             "pre": proj_json(&pre), "post": proj_json(&post), "en": m, "err": err, "depth": path.len()})).unwrap();
                         // follow the forced emission through the collapse phase and STOP: one edge per tail opcode
-                        if err.is_empty() && seed == gs.seeds[0] {
+                        if err.is_empty() && seed == gs.seeds[0] && (every_seed || stk.len() <= 1) {
                             let mut tail_path = pathj.clone();
                             tail_path.push(json!([op.as_u8(), bytes]));
                             let before_len = g2.output.len();
